@@ -87,7 +87,7 @@ func solveAll(obs []*Obligation, dir string, timeoutS int, keep bool) {
 			}
 			// overall budget for the staged attempts (the final full query always gets its own timeout)
 			t0 := time.Now()
-			over := func() bool { return time.Since(t0) > time.Duration(timeoutS)*time.Second }
+			over := func() bool { return budgetElapsed(t0) > float64(timeoutS) }
 			o.File = writeQuery(dir, o.Name, q.Script(nil))
 			if o.Cover {
 				// vacuity guard: hypotheses must be satisfiable. Quantified hypotheses make "sat" hard to
@@ -231,7 +231,7 @@ func solveAll(obs []*Obligation, dir string, timeoutS int, keep bool) {
 							nq := (&Query{Hyps: lc, Goal: lg}).Normalized()
 							lg, lc = nq.Goal, nq.Hyps
 						}
-						dl := t0.Add(time.Duration(timeoutS) * time.Second / 2)
+						dl := budgetDeadline(t0, float64(timeoutS)/2)
 						var hints []*Term
 						if o.ex != nil {
 							hints = o.ex.splitHints
@@ -255,7 +255,7 @@ func solveAll(obs []*Obligation, dir string, timeoutS int, keep bool) {
 							done = true
 						} else if ab := (&Query{Hyps: lc, Goal: lg}).AbstractArith(); ab != nil {
 							// the same with multiplication/division/remainder as uninterpreted functions
-							r2 := lazySplit(ab.Goal, ab.Hyps, q.Extra, q.FPMode, dir, o.Name+".abs", ct, 60, keep, 1, dl.Add(time.Duration(timeoutS/4)*time.Second), nil)
+							r2 := lazySplit(ab.Goal, ab.Hyps, q.Extra, q.FPMode, dir, o.Name+".abs", ct, 60, keep, 1, budgetDeadline(dl, float64(timeoutS)/4), nil)
 							if r2.Status == "unsat" {
 								r2.Solver += "+abs"
 								o.Res = r2
